@@ -901,6 +901,20 @@ func (m *vMachine) c02Invariants(i int, op vOp) {
 			}
 		}
 		circ := c.Supply(a.Denom).Sub(c.Minted.AmountOf(a.Denom))
+		if cfg.Liq != nil {
+			// with liquidations: never more in circulation than the principal of open vaults plus that of vaults awaiting
+			// the settlement of their auction (the settlement burns it, together with interest and closing fee)
+			awaiting := sdk.ZeroInt()
+			for _, sz := range m.seized {
+				if sz.initiator == "vault" && m.outAsset(m.product(sz.product)).Denom == a.Denom {
+					awaiting = awaiting.Add(sz.principal)
+				}
+			}
+			if circ.GT(sum.Add(awaiting)) {
+				m.fail("C02.supply-within-principal", "after:"+op.K, "step %d: vault-minted supply of %s is %s; open vaults record %s, vaults awaiting auction settlement %s", i, a.Denom, circ, sum, awaiting)
+			}
+			continue
+		}
 		// histories of this machine contain no liquidation: exact equality
 		if !circ.Equal(sum) {
 			m.fail("C02.supply-equals-principal", "after:"+op.K, "step %d: vault-minted supply of %s is %s, recorded principal %s", i, a.Denom, circ, sum)
@@ -1164,6 +1178,7 @@ func TestC01_vault(t *testing.T)       { vaultCheck(t, "C01", "vault", false) }
 func TestC01_liq(t *testing.T)         { vaultCheck(t, "C01", "liq", true) }
 func TestC02_vault(t *testing.T)       { vaultCheck(t, "C02", "vault", false) }
 func TestC03_vault(t *testing.T)       { vaultCheck(t, "C03", "vault", false) }
+func TestC02_liq(t *testing.T)         { vaultCheck(t, "C02", "liq", true) }
 func TestC13_vault(t *testing.T)       { vaultCheck(t, "C13", "vault", false) }
 func TestC13_liquidation(t *testing.T) { vaultCheck(t, "C13", "liquidation", true) }
 func TestC09_vaults(t *testing.T)      { vaultCheck(t, "C09", "vaults", true) }
@@ -1174,6 +1189,7 @@ func init() {
 	replayers["C01.vault"] = vaultReplay("C01")
 	replayers["C02.vault"] = vaultReplay("C02")
 	replayers["C03.vault"] = vaultReplay("C03")
+	replayers["C02.liq"] = vaultReplay("C02")
 	replayers["C13.vault"] = vaultReplay("C13")
 	replayers["C13.liquidation"] = vaultReplay("C13")
 	replayers["C01.liq"] = vaultReplay("C01")
